@@ -91,6 +91,7 @@ class Judge:
 
     def __init__(self, R, noise_fn):
         self.R, self.noise_fn, self._noise = R, noise_fn, None
+        self.failed = False
 
     def noise(self, which):
         if self._noise is None:
@@ -99,6 +100,7 @@ class Judge:
             except Exception as e:
                 self.R.count('replica noise measurement failed: ' + type(e).__name__)
                 self._noise = {}
+                self.failed = True
         return float(self._noise.get(which, 0.0))
 
     def __call__(self, monitor, value, tol, which, key, msg, **info):
@@ -106,6 +108,11 @@ class Judge:
             self.R.ok(monitor)
             return True
         nz = self.noise(which)
+        if self.failed:
+            # the replica of the very same call raised (numerically singular covariance / scatter): the case sits on a
+            # rounding-decided edge and cannot be judged
+            self.R.undecided(monitor, 'replica of the call raised (numerically singular case)')
+            return True
         if value <= 100 * nz:
             self.R.undecided(monitor, 'ill-conditioned case (mismatch within 100x replica noise)')
             return True
